@@ -375,7 +375,10 @@ def main():
                 ok3 += 1
             if ok3 >= need:
                 break
-        if ok3 < need:
+        if ok3 < need and hasattr(P, "self_evident") and P.self_evident(f["sig"], f["text"]):
+            # the failing run's own report is the evidence (a race report naming both accesses); a schedule need not recur on replay
+            f["text"] += "\n(not reproduced in %d statistical replays; the report above was produced by the generated run itself)" % tries
+        elif ok3 < need:
             errors.append("failure does not replay (%d/%d, needed %d): %s\n%s" % (ok3, tries, need, path, f["text"][:1000]))
             continue
         sig = f["sig"]
